@@ -391,4 +391,3 @@ func max64(a, b int64) int64 {
 	}
 	return b
 }
-
